@@ -86,3 +86,25 @@ pub fn format_range_annotations(
         .map(|t| t.to_string())
         .map_err(|e| e.to_string())
 }
+
+/// Runs `slice(a..b)` (`Some((a, b))`) / `reset_context()` (`None`) operations on an `Input` over `src` and
+/// returns `(line, column, offset, context_start_line, context_start_offset, remaining length)` after each.
+pub fn input_ops(src: &str, ops: &[Option<(usize, usize)>]) -> Vec<(usize, usize, usize, usize, usize, usize)> {
+    let mut input = crate::input::Input::from(src);
+    let mut out = vec![];
+    for op in ops {
+        match op {
+            Some((a, b)) => input = input.slice(*a..*b),
+            None => input.reset_context(),
+        }
+        out.push((
+            input.line(),
+            input.column(),
+            input.offset(),
+            input.context_start_line(),
+            input.context_start_offset(),
+            input.len(),
+        ));
+    }
+    out
+}
